@@ -2,7 +2,7 @@
    Directives in force: those of ExtrOcamlBasic, ExtrOcamlChar, ExtrOcamlString
    (listed in DESIGN.md section 6); nat/N/Z/positive stay inductive. *)
 From Coq Require Extraction ExtrOcamlBasic ExtrOcamlChar ExtrOcamlString.
-From CV Require Import Model.Base Model.Effector Model.RoleGraph Model.PathMatch Model.Expr Model.Enforce Model.Engine.
+From CV Require Import Model.Base Model.Effector Model.RoleGraph Model.PathMatch Model.Expr Model.Enforce Model.Engine Model.SpecC01 Model.Cached.
 Extraction Blacklist String List Char Bool Nat.
 Set Extraction KeepSingleton.
 Extraction "../extracted/model.ml"
@@ -10,4 +10,6 @@ Extraction "../extracted/model.ml"
   observe_effector c02_pred new_stream parse_erule
   lstep lrun RoleGraph.answer c03_pred
   print_expr escape_assertion key_match key_get
-  step ask new_enforcer reload_view count_us m_get_all.
+  step ask new_enforcer reload_view count_us m_get_all
+  perm_ref_plain perm_ref_ctx outcome_eqb
+  cstep cenforce crun prun.
